@@ -131,6 +131,26 @@ def source_table():
     return t
 
 
+def source_table_classes():
+    """The same generated definitions against the public model CLASSES of nifty/re/prior.py
+    (scalar shape, named input): defname -> (sampler, evaluator)."""
+    import jax.numpy as jnp
+    import nifty.re as jft
+
+    def x_(rng):
+        return float(rng.uniform(-XMAX, XMAX)) if rng.random() > 0.1 else 0.0
+
+    def call(model, x):
+        return float(model({"k": jnp.asarray(x)}))
+    t = {}
+    t["re_normal"] = (lambda r: (float(r.normal() * 3), logu(r, 1e-2, 1e2), x_(r)),
+                      lambda m, s, x: call(jft.NormalPrior(m, s, name="k"), x))
+    t["re_laplace"] = (lambda r: (logu(r, 1e-2, 1e2), x_(r)), lambda a, x: call(jft.LaplacePrior(a, name="k"), x))
+    t["re_uniform"] = (lambda r: (float(r.normal() * 3), logu(r, 1e-2, 1e2), x_(r)),
+                       lambda a, sc, x: call(jft.UniformPrior(a, a + sc, name="k"), x))
+    return t
+
+
 # ---- the direct oracle: registry of transforms -----------------------------------------------------
 def ref_quantile(dist, x, **kw):
     """dist.ppf(Phi(x)) computed without cancellation in the upper half."""
@@ -444,6 +464,19 @@ class C30(C.Check):
                     samples.append({"def": d.name, "args": args, "model": mod, "source": got})
                 if not ok:
                     bad.append({"def": d.name, "origin": d.origin, "args": args, "model": mod, "source": got, "error": err})
+        # the public model classes (prior.py) against the same generated definitions
+        for name, (sampler, src) in sorted(source_table_classes().items()):
+            for k in range(4 if ctx.quick else 40):
+                args = tuple(sampler(rng))
+                try:
+                    got = src(*args)
+                except Exception as e:
+                    got = float("nan")
+                mod = rend[name](*args)
+                evals += 1
+                # UniformPrior recomputes scale = (a + sc) - a: one rounding of the scale
+                if not close(mod, got, 1e-8 if name == "re_uniform" else RTOL, atol=1e-9 * max(1.0, max(abs(a) for a in args))):
+                    bad.append({"def": name + " (via model class)", "origin": "nifty/re/prior.py", "args": args, "model": mod, "source": got, "error": None})
         # the hand-written SciPy Laplace model against SciPy
         for k in range(40 if ctx.quick else 400):
             p = float(rng.uniform(1e-9, 1 - 1e-9))
